@@ -30,11 +30,15 @@ CKW = ["double", "float", "const", "void", "char", "static", "struct", "switch",
        "signed", "sizeof", "typedef", "restrict", "inline", "auto", "register", "extern", "volatile", "union", "enum", "goto", "do"]
 SYMPY = ["E", "I", "S", "N", "O", "Q", "beta", "gamma", "zeta", "oo", "zoo", "nan", "Symbol", "x0", "e", "pi2", "Abs2"]
 FRESH = ["zq_fresh", "Vm", "Ca_i"]
-ROLES = ["state", "parameter", "intermediate"]
+ROLES = ["state", "parameter", "intermediate", "condintermediate"]
 
 
 def model_for(ident, role):
     S, P, I = "y", "b", "i0"
+    if role == "condintermediate":
+        # an intermediate whose right-hand side is a bare Conditional (printed through the Piecewise-assignment path)
+        return (f"parameters(a=0.5, b=2.0)\nstates(x=1.0, y=3.0)\n"
+                f"{ident} = Conditional(Gt(x, a), y*b, -y)\ndx_dt = -{ident} + b*x\ndy_dt = x - y*a + {ident}*t\n")
     if role == "state":
         S = ident
     elif role == "parameter":
